@@ -108,6 +108,21 @@ CHECKS = [
               "the index time is unconstrained",
          technique="TLA+ model checking (TLC) + TLC-enumerated scenarios replayed on the purge commands + TLC trace validation of "
                    "the lock race"),
+    dict(id="C21",
+         text="Params.tla states the sidecar's env-var format as an executable decoder (first character item separator, "
+              "second key/value separator, neither '.', empty items dropped, item without separator = flag, only field 2 of "
+              "cut kept) and is model-checked on itself (Decode(Encode(p)) = Expected(p); Unambiguous is exactly 'decodes back' "
+              "for any separators); parameter sets chosen by TLC from value classes (exhaustive single substitutions + random "
+              "sets) and a fixed literal corpus are encoded by the REAL FUSEParamsToEnvVars / PGParamsToEnvVars (builder API and "
+              "YAML route) and every call is judged by TLC trace validation: err or (Decode(out) = Expected(in), Unambiguous(out), "
+              "ShellSafe(key/value separator))",
+         design_ref="§3 C21",
+         note="Trusted: TLC, the class instantiation and event logging of the harness (the structure handed to the encoder is "
+              "compared with the logged input). Bounds: quick = 1 435 single substitutions + 400 random sets + 19 literal sets; "
+              "thorough = 1 435 + 30 000 + 20; codec model: alphabet of 6 characters, 2 keyed values of length <= 2 (quick) / 3 "
+              "(thorough) + 1 flag. An error of the encoder is accepted except on well-formed lower-case sets",
+         technique="TLA+ model checking (TLC) of the codec + TLC-chosen parameter sets encoded by pkg/sidecar/param + TLC trace "
+                   "validation of every call"),
     dict(id="C22",
          text="Tracker.tla (bitmap of written offsets; ModifiedOp / ContigBound result operators checked sound and maximal, "
               "marker encoding faithful, writes commutative/idempotent/exact by exhaustive TLC); TLC enumerates every write "
